@@ -204,6 +204,55 @@ type CaseC15 struct {
 	Via   string   `json:"via"`            // decode: receiver first decodes Dirty's encoding; fill: fields assigned directly
 	Part  *Value   `json:"part,omitempty"` // if set: after that, the receiver is offered only the first Cut mod len bytes of this message's encoding (a partial segment: the attempt fails half-way)
 	Cut   int      `json:"cut,omitempty"`
+	// Shared: the receiver's earlier content was put together by application code that used ONE element object in
+	// several places (every entry of a repeating group, and a nested part of the same type, point to the same object)
+	Shared bool `json:"shared,omitempty"`
+	// SameBuf: everything this receiver is given arrives through ONE bytes.Buffer object that the receive loop resets
+	// and refills (the earlier message, the partial segment, then the bytes under test)
+	SameBuf bool `json:"same_buf,omitempty"`
+}
+
+// shareParts makes every element of each list of pointers, and each pointer field of the same element type, one object.
+func shareParts(rv reflect.Value, depth int) {
+	for rv.Kind() == reflect.Pointer || rv.Kind() == reflect.Interface {
+		if rv.IsNil() {
+			return
+		}
+		rv = rv.Elem()
+	}
+	if rv.Kind() != reflect.Struct || depth > 4 {
+		return
+	}
+	shared := map[reflect.Type]reflect.Value{}
+	for i := 0; i < rv.NumField(); i++ {
+		f := rv.Field(i)
+		if !f.CanSet() {
+			continue
+		}
+		if f.Kind() == reflect.Slice && f.Type().Elem().Kind() == reflect.Pointer && f.Len() > 0 {
+			first := f.Index(0)
+			for j := 1; j < f.Len(); j++ {
+				f.Index(j).Set(first)
+			}
+			shared[f.Type().Elem()] = first
+			shareParts(first, depth+1)
+		}
+	}
+	for i := 0; i < rv.NumField(); i++ {
+		f := rv.Field(i)
+		if !f.CanSet() {
+			continue
+		}
+		if f.Kind() == reflect.Pointer {
+			if sh, ok := shared[f.Type()]; ok && !f.IsNil() {
+				f.Set(sh)
+			} else {
+				shareParts(f, depth+1)
+			}
+		} else if f.Kind() == reflect.Interface {
+			shareParts(f, depth+1)
+		}
+	}
 }
 
 func oracleC15(c *CaseC15) *Failure {
@@ -214,20 +263,32 @@ func oracleC15(c *CaseC15) *Failure {
 		return nil // C09
 	}
 	dirty := regByName[c.Type].New()
+	var loopBuf bytes.Buffer // the receive loop's one buffer (SameBuf)
+	refill := func(b []byte) *bytes.Buffer {
+		if !c.SameBuf {
+			return bytes.NewBuffer(append([]byte{}, b...))
+		}
+		loopBuf.Reset()
+		loopBuf.Write(b)
+		return &loopBuf
+	}
 	if c.Via == "decode" {
 		enc := Render(c.Dirty, nil).Bytes
-		if e, p, _ := safely(func() error { return DecodeAny(dirty, bytes.NewBuffer(enc)) }); e != nil || p != nil {
+		if e, p, _ := safely(func() error { return DecodeAny(dirty, refill(enc)) }); e != nil || p != nil {
 			FillStruct(dirty, c.Dirty)
 		}
 	} else {
 		FillStruct(dirty, c.Dirty)
 	}
+	if c.Shared {
+		shareParts(reflect.ValueOf(dirty), 0)
+	}
 	if c.Part != nil {
 		if enc := Render(c.Part, nil).Bytes; len(enc) > 0 {
-			_, _, _ = safely(func() error { return DecodeAny(dirty, bytes.NewBuffer(append([]byte{}, enc[:c.Cut%len(enc)]...))) })
+			_, _, _ = safely(func() error { return DecodeAny(dirty, refill(enc[:c.Cut%len(enc)])) })
 		}
 	}
-	db := bytes.NewBuffer(append([]byte{}, c.W...))
+	db := refill(c.W)
 	derr, dpan, _ := safely(func() error { return DecodeAny(dirty, db) })
 	sig := "C15/" + c.Type
 	if dpan != nil {
@@ -556,6 +617,14 @@ func rpC15(types []string) (out []RProp) {
 				}
 				c.Cut = rapid.IntRange(0, 1<<20).Draw(rt, "partcut")
 				cls = append(cls, "receiver-also-holds-a-half-decoded-message")
+			}
+			if hasVariableParts(tn) && rapid.IntRange(0, 3).Draw(rt, "shared") == 0 {
+				c.Shared = true
+				cls = append(cls, "receiver-built-with-one-element-object-in-several-places")
+			}
+			if rapid.IntRange(0, 2).Draw(rt, "samebuf") == 0 {
+				c.SameBuf = true
+				cls = append(cls, "one-reused-buffer-object-for-all-the-receiver-is-given")
 			}
 			var a, b []string
 			listShape(wv, &a)
